@@ -136,6 +136,42 @@ def do_seeded(a):
     _report("seeded", results, a)
 
 
+ALL_PIDS = ["C01", "C04", "C05", "C11", "C12", "C13", "C14", "C15", "C17", "C20"]
+
+
+def do_benign(a):
+    """Behaviour-preserving changes (/verif/benign/<id>/patch.diff): every check must stay silent (exit 0)."""
+    base = os.path.join(VERIF, "benign")
+    dirs = sorted(d for d in os.listdir(base) if os.path.isdir(os.path.join(base, d)))
+    if a.only:
+        dirs = [d for d in dirs if d in a.only]
+
+    def one(d):
+        wt = make_worktree("benign-" + d)
+        try:
+            r = sh(["git", "-C", wt, "apply", os.path.join(base, d, "patch.diff")])
+            if r.returncode != 0:
+                return {"id": d, "pid": "-", "error": "patch does not apply: " + r.stderr[:300]}
+            out = {"id": d, "pid": "all", "checks": {}}
+            for pid in ALL_PIDS:
+                out["checks"][pid] = run_check(pid, wt, a.tier, a.runs, workers=a.workers)
+            out["silent"] = all(c["exit"] == 0 for c in out["checks"].values())
+            return out
+        finally:
+            drop_worktree(wt)
+
+    with ThreadPoolExecutor(a.jobs) as ex:
+        results = list(ex.map(one, dirs))
+    os.makedirs(os.path.join(VERIF, "mutants"), exist_ok=True)
+    json.dump({"tier": a.tier, "results": results}, open(os.path.join(VERIF, "mutants", "results-benign.json"), "w"), indent=1)
+    for r in results:
+        if "error" in r:
+            print(r["id"], "ERROR", r["error"])
+            continue
+        bad = {p: (c["exit"], c["violations"][:1]) for p, c in r["checks"].items() if c["exit"] != 0}
+        print(f"{r['id']:8s} silent={r['silent']} {bad if bad else ''}")
+
+
 def _report(kind, results, a):
     os.makedirs(os.path.join(VERIF, "mutants"), exist_ok=True)
     path = os.path.join(VERIF, "mutants", f"results-{kind}.json")
@@ -174,7 +210,7 @@ def do_suite(a):
 def main():
     ap = argparse.ArgumentParser()
     sub = ap.add_subparsers(dest="cmd", required=True)
-    for name in ("table", "seeded"):
+    for name in ("table", "seeded", "benign"):
         p = sub.add_parser(name)
         p.add_argument("--only", nargs="*")
         p.add_argument("--tier", default="quick")
@@ -186,7 +222,7 @@ def main():
     p = sub.add_parser("suite")
     p.add_argument("patch")
     a = ap.parse_args()
-    return {"table": do_table, "seeded": do_seeded, "suite": do_suite}[a.cmd](a)
+    return {"table": do_table, "seeded": do_seeded, "suite": do_suite, "benign": do_benign}[a.cmd](a)
 
 
 if __name__ == "__main__":
